@@ -8,10 +8,11 @@ Read from the LIVE objects of /repo's working tree (gen_consts.py has put it fir
 * `SlaveService.on_connect`: what it writes into `conn._config`, observed by running it on a recording
   stand-in connection (not parsed), and whether `DEFAULT_CONFIG` is deep-equal before and after.
 * which `_rpyc_*attr` hooks `Service` and the class made by `helpers.restricted` define.
+* OBSERVED behaviour (robust against harmless rewrites): which config keys `_check_attr` reads (recording dict);
+  that `Connection.__init__` gives every connection its own copy of the defaults overlaid with the caller's dict
+  and leaves `DEFAULT_CONFIG` and the caller's dict alone.
 * AST facts that are not data: every call site of `Connection._access_attr` with its
-  (object expression, overrider, permission key, default accessor); which handlers delegate to
-  `_handle_getattr`; the codec `_access_attr` decodes a bytes name with; how `Connection.__init__`
-  builds `_config` (copy of the defaults, then update with the caller's dict).
+  (object is `type(..)`?, overrider, permission key, default accessor); which handlers delegate to `_handle_getattr`.
 
 Raises gen_consts.Inexpressible when the source no longer has a shape these definitions can express.
 """
@@ -61,16 +62,10 @@ def render_default(v):
     return "<%s>" % type(v).__name__
 
 
-def _expr_text(node):
-    try:
-        return ast.unparse(node)
-    except Exception:  # noqa
-        return "?"
-
-
 def access_sites(protocol):
-    """[(method, obj-expr, name-expr, overrider, perm, default-accessor)] for every `self._access_attr(...)`
-    call in class Connection, and [method] for every method calling `self._handle_getattr(...)`."""
+    """[(method, object-is-`type(..)`, overrider, perm, default-accessor)] for every `self._access_attr(...)` call in
+    class Connection, and [method] for every method calling `self._handle_getattr(...)`.  Variable names are not
+    recorded (renaming a local is harmless)."""
     sites, delegates = [], []
     cls = protocol.Connection
     for mname, fn in sorted(vars(cls).items()):
@@ -83,78 +78,108 @@ def access_sites(protocol):
             if isinstance(n, ast.Call) and isinstance(n.func, ast.Attribute) and isinstance(n.func.value, ast.Name) \
                     and n.func.value.id == "self":
                 if n.func.attr == "_access_attr":
-                    if n.keywords or len(n.args) != 6:
-                        raise Inexpressible("%s: _access_attr called with %d args / keywords" % (mname, len(n.args)))
-                    obj, name, _args, over, perm, dflt = n.args
+                    args = list(n.args)
+                    kw = dict((k.arg, k.value) for k in n.keywords)
+                    names = ["obj", "name", "args", "overrider", "param", "default"]
+                    for i, a in enumerate(args):
+                        kw[names[i]] = a
+                    if sorted(kw) != sorted(names):
+                        raise Inexpressible("%s: _access_attr called with unexpected arguments" % mname)
+                    over, perm, dflt, obj = kw["overrider"], kw["param"], kw["default"], kw["obj"]
                     if not (isinstance(over, ast.Constant) and isinstance(over.value, str)
                             and isinstance(perm, ast.Constant) and isinstance(perm.value, str)
                             and isinstance(dflt, ast.Name)):
                         raise Inexpressible("%s: _access_attr overrider/param/default are not literals" % mname)
-                    sites.append((mname, _expr_text(obj), _expr_text(name), over.value, perm.value, dflt.id))
+                    is_type = isinstance(obj, ast.Call) and isinstance(obj.func, ast.Name) and obj.func.id == "type"
+                    sites.append((mname, is_type, over.value, perm.value, dflt.id))
                 elif n.func.attr == "_handle_getattr" and mname != "_handle_getattr":
                     delegates.append(mname)
-    return sites, sorted(set(delegates))
+    return sorted(set(sites)), sorted(set(delegates))
 
 
-def check_attr_reads(protocol):
-    """config keys `_check_attr` reads by literal subscript (AST), plus whether it subscripts by `perm`"""
-    node = func_ast(protocol.Connection._check_attr)
-    keys, by_param = set(), False
-    params = [a.arg for a in node.args.args]
-    for n in ast.walk(node):
-        if isinstance(n, ast.Subscript) and isinstance(n.value, ast.Name) and n.value.id == "config":
-            s = n.slice
-            if isinstance(s, ast.Constant) and isinstance(s.value, str):
-                keys.add(s.value)
-            elif isinstance(s, ast.Name) and s.id in params:
-                by_param = True
-            else:
-                raise Inexpressible("_check_attr subscripts config with a computed key")
-    return sorted(keys), by_param
+class _RecordingDict(dict):
+    """a config dict that records which keys are read"""
+    def __init__(self, *a, **k):
+        dict.__init__(self, *a, **k)
+        self.read = set()
+
+    def __getitem__(self, k):
+        self.read.add(k)
+        return dict.__getitem__(self, k)
+
+    def get(self, k, d=None):
+        self.read.add(k)
+        return dict.get(self, k, d)
+
+    def __contains__(self, k):
+        self.read.add(k)
+        return dict.__contains__(self, k)
 
 
-def name_codec(protocol):
-    """the encoding `_access_attr` passes to str(name, <enc>) for a bytes name (AST)"""
-    node = func_ast(protocol.Connection._access_attr)
-    found = []
-    for n in ast.walk(node):
-        if isinstance(n, ast.Call) and isinstance(n.func, ast.Name) and n.func.id == "str" and len(n.args) >= 2:
-            enc = n.args[1]
-            if not (isinstance(enc, ast.Constant) and isinstance(enc.value, str)):
-                raise Inexpressible("_access_attr: non-constant codec")
-            errs = n.args[2].value if len(n.args) > 2 and isinstance(n.args[2], ast.Constant) else "strict"
-            for k in n.keywords:
-                if k.arg == "errors" and isinstance(k.value, ast.Constant):
-                    errs = k.value.value
-            found.append((enc.value, errs))
-        if isinstance(n, ast.Call) and isinstance(n.func, ast.Attribute) and n.func.attr == "decode":
-            args = [a.value for a in n.args if isinstance(a, ast.Constant)]
-            kws = {k.arg: k.value.value for k in n.keywords if isinstance(k.value, ast.Constant)}
-            found.append((args[0] if args else kws.get("encoding", "utf-8"),
-                          args[1] if len(args) > 1 else kws.get("errors", "strict")))
-    if len(found) != 1:
-        raise Inexpressible("_access_attr: expected exactly one decoding of a bytes name, found %d" % len(found))
-    enc, errs = found[0]
-    if enc.lower().replace("-", "").replace("_", "") != "utf8":
-        raise Inexpressible("_access_attr decodes names with %r, not UTF-8" % (enc,))
-    if errs != "strict":
-        raise Inexpressible("_access_attr decodes names with error handler %r (only strict is modelled)" % (errs,))
-    return enc, errs
+class _NullChannel(object):
+    def send(self, data):
+        pass
+
+    def close(self):
+        pass
+
+    def fileno(self):
+        return -1
 
 
-def init_config_shape(protocol):
-    """How Connection.__init__ builds self._config (AST): 'copy-then-update' is the only modelled shape:
-    `self._config = DEFAULT_CONFIG.copy()` followed by `self._config.update(config)`."""
-    node = func_ast(protocol.Connection.__init__)
-    assigned = None
-    updated = False
-    for n in ast.walk(node):
-        if isinstance(n, ast.Assign) and len(n.targets) == 1 and _expr_text(n.targets[0]) == "self._config":
-            assigned = _expr_text(n.value)
-        if isinstance(n, ast.Call) and _expr_text(n.func) == "self._config.update" and len(n.args) == 1 \
-                and _expr_text(n.args[0]) == "config":
-            updated = True
-    return assigned or "?", updated
+class _Probe(object):
+    exposed_foo = 1
+    foo = 2
+
+
+def check_attr_reads(protocol, service):
+    """config keys `_check_attr` reads, OBSERVED by running it over all 16 settings of the four name switches x
+    sample names x the three permission keys on a connection whose `_config` records reads"""
+    conn = protocol.Connection(service.VoidService(), _NullChannel(), {})
+    keys = set()
+    try:
+        for m in range(16):
+            cfg = _RecordingDict(conn._config)
+            cfg.update(allow_safe_attrs=bool(m & 1), allow_exposed_attrs=bool(m & 2), allow_public_attrs=bool(m & 4),
+                       allow_all_attrs=bool(m & 8), allow_getattr=True, allow_setattr=True, allow_delattr=True)
+            conn._config = cfg
+            for perm in ("allow_getattr", "allow_setattr", "allow_delattr"):
+                for name in ("foo", "_x", "exposed_foo", "__eq__", "bar"):
+                    try:
+                        conn._check_attr(_Probe(), name, perm)
+                    except AttributeError:
+                        pass
+            keys |= cfg.read
+    finally:
+        conn.close()
+    return sorted(keys)
+
+
+def init_behaviour(protocol, service):
+    """what `Connection.__init__` does with the defaults and the caller's dict, OBSERVED:
+    (own copy not aliasing DEFAULT_CONFIG, equal to defaults when no config is given (connid aside),
+     caller's keys overlaid, DEFAULT_CONFIG and the caller's dict left deep-equal)"""
+    before = copy.deepcopy(protocol.DEFAULT_CONFIG)
+    c1 = protocol.Connection(service.VoidService(), _NullChannel(), {})
+    arg = dict(allow_all_attrs=not before["allow_all_attrs"], exposed_prefix="zz_")
+    arg_before = dict(arg)
+    c2 = protocol.Connection(service.VoidService(), _NullChannel(), arg)
+    try:
+        own_copy = c1._config is not protocol.DEFAULT_CONFIG and c2._config is not protocol.DEFAULT_CONFIG \
+            and c1._config is not c2._config
+        d1 = dict(c1._config)
+        d1.pop("connid", None)
+        b = dict(before)
+        b.pop("connid", None)
+        equals_defaults = d1 == b
+        d2 = dict(c2._config)
+        overlaid = all(d2[k] == v for k, v in arg.items()) and all(
+            d2[k] == before[k] for k in before if k not in arg and k != "connid")
+        untouched = protocol.DEFAULT_CONFIG == before and arg == arg_before
+    finally:
+        c1.close()
+        c2.close()
+    return own_copy, equals_defaults, overlaid, untouched
 
 
 class _RecordingConn(object):
@@ -219,26 +244,27 @@ def gen_policy():
           "def defaultConfig : List (String × String) := " + lean_list(
               ["(%s, %s)" % (lean_str(k), lean_str(render_default(v))) for k, v in sorted(cfg.items())], 1),
           "def defaultConfigKeys : List String := " + lean_list([lean_str(k) for k in sorted(cfg)], 5)]
-    # which keys _check_attr consults
-    keys, by_param = check_attr_reads(protocol)
-    L += ["", "/-- config keys `_check_attr` reads by literal subscript, and whether it also reads `config[perm]` (AST) -/",
-          "def checkAttrReads : List String := " + lean_list([lean_str(k) for k in keys], 5),
-          "def checkAttrReadsPerm : Bool := %s" % lean_bool(by_param)]
+    # which keys _check_attr consults (observed)
+    keys = check_attr_reads(protocol, service)
+    L += ["", "/-- config keys `_check_attr` reads (observed with a recording dict over all settings of the name switches) -/",
+          "def checkAttrReads : List String := " + lean_list([lean_str(k) for k in keys], 5)]
     # _access_attr call sites
     sites, delegates = access_sites(protocol)
     L += ["", "/-- every `self._access_attr(obj, name, args, overrider, perm, default)` call in class Connection (AST):",
-          "(method, object expression, name expression, overrider, perm key, default accessor) -/",
-          "def accessSites : List (String × String × String × String × String × String) := " + lean_list(
-              ["(%s)" % ", ".join(lean_str(x) for x in s) for s in sites], 1),
+          "(method, object is `type(..)`, overrider, perm key, default accessor) -/",
+          "def accessSites : List (String × Bool × String × String × String) := " + lean_list(
+              ["(%s, %s, %s, %s, %s)" % (lean_str(m), lean_bool(t), lean_str(o), lean_str(pk), lean_str(d))
+               for m, t, o, pk, d in sites], 1),
           "/-- handlers that obtain an attribute by calling `self._handle_getattr` (AST) -/",
           "def getattrDelegates : List String := " + lean_list([lean_str(d) for d in delegates], 5)]
-    enc, errs = name_codec(protocol)
-    L += ["", "/-- `_access_attr` decodes a bytes name with this codec / error handler (AST; checked to be UTF-8, strict) -/",
-          "def nameCodec : String := %s" % lean_str(enc), "def nameCodecErrors : String := %s" % lean_str(errs)]
-    assigned, updated = init_config_shape(protocol)
-    L += ["", "/-- `Connection.__init__`: what `self._config` is assigned, and whether `self._config.update(config)` follows (AST) -/",
-          "def initConfigAssigned : String := %s" % lean_str(assigned),
-          "def initConfigUpdatedWithArg : Bool := %s" % lean_bool(updated)]
+    own_copy, equals_defaults, overlaid, untouched = init_behaviour(protocol, service)
+    L += ["", "/-- `Connection.__init__`, observed: the connection's `_config` is its own dict (not DEFAULT_CONFIG, not shared),",
+          "equals the defaults when no config is given, has the caller's keys overlaid, and neither DEFAULT_CONFIG nor the",
+          "caller's dict is modified -/",
+          "def initOwnCopy : Bool := %s" % lean_bool(own_copy),
+          "def initEqualsDefaults : Bool := %s" % lean_bool(equals_defaults),
+          "def initOverlaysArg : Bool := %s" % lean_bool(overlaid),
+          "def initLeavesInputsAlone : Bool := %s" % lean_bool(untouched)]
     # SlaveService.on_connect
     upd, unchanged = slave_update(protocol, service)
     known = dict(SWITCHES + OTHER_BOOLS)
